@@ -583,7 +583,14 @@ public:
                 }
                 break;
             case staj_events::byte_string_value:
-                visitor.byte_string_value(byte_string_view(value_.byte_string_data_,length_), tag(), context);
+                if (tag() == semantic_tag::ext)
+                {
+                    visitor.byte_string_value(byte_string_view(value_.byte_string_data_,length_), ext_tag(), context);
+                }
+                else
+                {
+                    visitor.byte_string_value(byte_string_view(value_.byte_string_data_,length_), tag(), context);
+                }
                 break;
             case staj_events::null_value:
                 visitor.null_value(tag(), context);
@@ -630,7 +637,14 @@ public:
                 visitor.string_value(string_view_type(value_.string_data_,length_), tag(), context);
                 break;
             case staj_events::byte_string_value:
-                visitor.byte_string_value(byte_string_view(value_.byte_string_data_,length_), tag(), context);
+                if (tag() == semantic_tag::ext)
+                {
+                    visitor.byte_string_value(byte_string_view(value_.byte_string_data_,length_), ext_tag(), context);
+                }
+                else
+                {
+                    visitor.byte_string_value(byte_string_view(value_.byte_string_data_,length_), tag(), context);
+                }
                 break;
             case staj_events::null_value:
                 visitor.null_value(tag(), context);
